@@ -22,7 +22,8 @@ class Raised(Exception):
 
 
 class _Ret(Exception):
-    pass
+    def __init__(self, value=None):
+        self.value = value
 
 
 class NeedChoice(Exception):
@@ -82,6 +83,16 @@ class Cell:
                 return Sym('stateenum')
             if e.id in ('json', 'yaml'):
                 return Sym('module', e.id)
+            if e.id in ('logger', 'logging'):
+                return Sym('logger')
+            m = self.P.module('yatiml.dumper')
+            if e.id in m.constants and e.id not in getattr(self, '_resolving', set()):
+                # a module-level constant of dumper.py (a tuple of tags, a set of states, ...)
+                self._resolving = getattr(self, '_resolving', set()) | {e.id}
+                try:
+                    return self.ev(m.constants[e.id], {})
+                finally:
+                    self._resolving = self._resolving - {e.id}
             raise AnalysisError('emit_json: unknown name %s' % e.id)
         if isinstance(e, ast.Attribute):
             b = self.ev(e.value, env)
@@ -96,7 +107,7 @@ class Cell:
                          '_cur_indent': Sym('indent'), 'best_line_break': Sym('linebreak')}
                     if e.attr in m:
                         return m[e.attr]
-                    return Sym('selfattr', e.attr)
+                    return Sym('unk', 'self.' + e.attr)      # emitter state outside the modelled stack: value unknown
                 if b.kind == 'event':
                     if e.attr == 'tag':
                         if self.event_cls != 'ScalarEvent':
@@ -111,7 +122,7 @@ class Cell:
                     if e.attr in self.bases or e.attr in EVENTS:
                         return Sym('evclass', e.attr)
                     return Sym('modattr', b.args[0], e.attr)
-                if b.kind in ('stack', 'stream', 'raw', 'modattr'):
+                if b.kind in ('stack', 'stream', 'raw', 'modattr', 'unk', 'rawlower', 'rawmod', 'jsonstr', 'concat'):
                     return Sym('method', b, e.attr)
             raise AnalysisError('emit_json: unsupported attribute %s' % ast.unparse(e))
         if isinstance(e, ast.UnaryOp) and isinstance(e.op, ast.Not):
@@ -268,7 +279,31 @@ class Cell:
                 if f.attr == '_do_endline':
                     self.actions.append(('NL',))
                     return None
+                cls = self.P.cls('yatiml.dumper:Dumper')
+                mi = cls.methods.get(f.attr)
+                if mi is not None and f.attr != 'emit_json' and getattr(self, '_inline_depth', 0) < 3:
+                    # a helper method of the dumper: evaluate its body with the arguments bound
+                    ps = mi.params
+                    env2 = {ps[0]: Sym('self'), '__self_name__': ps[0]} if ps else {}
+                    for p_, a_ in zip(ps[1:], e.args):
+                        env2[p_] = self.ev(a_, env)
+                    for k in e.keywords:
+                        if k.arg:
+                            env2[k.arg] = self.ev(k.value, env)
+                    defaults = mi.node.args.defaults
+                    for p_, d_ in zip(ps[len(ps) - len(defaults):], defaults):
+                        env2.setdefault(p_, self.ev(d_, {}))
+                    self._inline_depth = getattr(self, '_inline_depth', 0) + 1
+                    try:
+                        self.run(mi.node.body, env2)
+                    except _Ret as r_:
+                        return r_.value
+                    finally:
+                        self._inline_depth -= 1
+                    return None
                 raise AnalysisError('emit_json: calls self.%s (not modelled)' % f.attr)
+            if isinstance(f.value, ast.Name) and f.value.id in ('logger', 'logging'):
+                return None         # logging writes nothing to the stream
             target = self.ev(f, env)
             if isinstance(target, Sym) and target.kind == 'method':
                 recv, name = target.args
@@ -314,6 +349,8 @@ class Cell:
                     elif k.arg is not None:
                         raise AnalysisError('emit_json: json.dumps option %s not modelled' % k.arg)
                 return Sym('jsonstr', arg, ea if ea is not None else True)
+            if isinstance(target, Sym) and target.kind == 'method' and target.args[0].kind in ('unk',):
+                return Sym('unk', ast.unparse(e)[:60])      # e.g. a lookup in a cache the model knows nothing about
             raise AnalysisError('emit_json: unsupported call %s' % ast.unparse(e)[:60])
         raise AnalysisError('emit_json: unsupported call')
 
@@ -336,6 +373,8 @@ class Cell:
                 return ('ws',)
             if v.kind == 'concat':
                 return ('concat',) + v.args
+            if v.kind == 'unk':
+                return ('opaque',) + tuple(str(a) for a in v.args)
         raise AnalysisError('emit_json: writes an unmodelled value: %s' % ast.unparse(e)[:60])
 
     # ---- statements -------------------------------------------------------------------------------
@@ -369,7 +408,7 @@ class Cell:
                 self.actions.append(('RAISE', self.raised))
                 raise Raised(self.raised)
             elif isinstance(st, ast.Return):
-                raise _Ret()
+                raise _Ret(self.ev(st.value, env) if st.value is not None else None)
             elif isinstance(st, ast.Pass):
                 pass
             else:
@@ -387,7 +426,13 @@ class Cell:
                 self.vis[rel] = v.args[0]
                 self.actions.append(('SET', rel, v.args[0]))
                 return
+            if isinstance(b, Sym) and b.kind == 'unk':
+                self.actions.append(('SETITEM', ast.unparse(t.value)))
+                return
             raise AnalysisError('emit_json: unsupported store %s' % ast.unparse(st))
+        elif isinstance(t, ast.Attribute) and isinstance(t.value, ast.Name) and t.value.id == env.get('__self_name__'):
+            # emitter state outside the modelled stack: recorded, and unknown when read back
+            self.actions.append(('SETATTR', t.attr, repr(v)))
         else:
             raise AnalysisError('emit_json: unsupported assignment target %s' % ast.unparse(st))
 
